@@ -238,7 +238,13 @@ def _r7(ctx):
     for attr, store in (("rate_modifier", "_rate_modifier"), ("ode_modifier", "_ode_modifier")):
         ci = pkg.cls("Network")
         getters = [fn for fn in ci.node.body if isinstance(fn, ast.FunctionDef) and fn.name == attr and any(ast.unparse(d) == "property" for d in fn.decorator_list)]
-        ok = len(getters) == 1 and any(isinstance(x, ast.Return) and ast.unparse(x.value) in (f"self.{store}", f"self.{store}.copy()") for x in getters[0].body)
+        rets = [x for x in ast.walk(getters[0]) if isinstance(x, ast.Return)] if len(getters) == 1 else []
+        def bare(v):
+            """the table a whole-copy expression carries: X for X, X.copy(), dict(X), copy.deepcopy(X)"""
+            while isinstance(v, ast.Call) and _whole_copy(v):
+                v = v.func.value if isinstance(v.func, ast.Attribute) and v.func.attr == "copy" and not v.args else v.args[0]
+            return v
+        ok = bool(rets) and all(x.value is not None and _whole_copy(x.value) and ast.unparse(bare(x.value)) == f"self.{store}" for x in rets)
         ctx.check(ok, "R7", f"Network.{attr} getter", (NETWORK, getters[0].lineno if getters else 0), "the property returns the stored table", expected=f"return self.{store}")
 
 
@@ -459,16 +465,30 @@ def _r2(ctx):
     for node in ast.walk(h):
         if isinstance(node, ast.Assign) and any(isinstance(t, ast.Name) and t.id in passed for t in node.targets) and isinstance(node.value, ast.DictComp):
             conv = node
+    if conv is None:
+        # ... or the conversion written in the call itself: Network(rate_modifier={int(k): v for ..})
+        for c in ast.walk(h):
+            if isinstance(c, ast.Call) and ast.unparse(c.func) == "Network":
+                for k in c.keywords:
+                    if k.arg == "rate_modifier" and isinstance(k.value, ast.DictComp):
+                        conv = ast.copy_location(ast.Assign(targets=[ast.Name(id="<keyword rate_modifier>", ctx=ast.Store())], value=k.value), c)
+                        conv._inline = True
     okc = False
     if conv is not None:
         g0 = conv.value.generators[0]
         kname = g0.target.elts[0].id if isinstance(g0.target, ast.Tuple) and isinstance(g0.target.elts[0], ast.Name) else None
         okc = ast.unparse(conv.value.key) == f"int({kname})" and ast.unparse(g0.iter).endswith(".items()") and not g0.ifs
-    ctx.check(okc, "R2", "RenderCommand.handle:int(key)", (RENDER, conv.lineno if conv else h.lineno),
-              "TOML keys (strings) are converted to int before they are compared with idxfromfile",
-              expected="{int(key): value for key, value in rate_modifier.items()}", found=ast.unparse(conv.value)[:90] if conv else "no conversion")
+    srcs = [n for n in ast.walk(h) if isinstance(n, ast.Assign) and any(isinstance(t, ast.Name) and t.id in passed for t in n.targets)]
+    if conv is None and not (srcs and all(_whole_copy(n.value) or isinstance(n.value, ast.Subscript) for n in srcs)):
+        # the table reaches Network(..) through something this rule cannot read (a helper, a loop with other statements): not evidence of a missing conversion
+        ctx.unrec("R2", "RenderCommand.handle:int(key)", (RENDER, h.lineno), "cannot tell how the keys of the configured rate_modifier table are converted on the way to Network(rate_modifier=..): "
+                  + "; ".join(ast.unparse(n.value)[:60] for n in srcs)[:160])
+    else:
+        ctx.check(okc, "R2", "RenderCommand.handle:int(key)", (RENDER, conv.lineno if conv else h.lineno),
+                  "TOML keys (strings) are converted to int before they are compared with idxfromfile",
+                  expected="{int(key): value for key, value in rate_modifier.items()}", found=ast.unparse(conv.value)[:90] if conv else "no conversion")
     # the Network(...) call receives the converted dict
-    if conv is not None:
+    if conv is not None and not getattr(conv, "_inline", False):
         later = [c for c in ast.walk(h) if isinstance(c, ast.Call) and ast.unparse(c.func) == "Network" and c.lineno > conv.lineno]
         ok = any(any(k.arg == "rate_modifier" and ast.unparse(k.value) == ast.unparse(conv.targets[0]) for k in c.keywords) for c in later)
         ctx.check(ok, "R2", "RenderCommand.handle:Network(rate_modifier=)", (RENDER, later[0].lineno if later else conv.lineno),
@@ -549,9 +569,23 @@ def _r3(ctx):
     ctx.check(ok, "R3", "Network.reindex", (NETWORK, rfn.lineno), "reindex sets reac.idxfromfile = position for every reaction of reaction_list",
               found="; ".join(show(f.value) for f in st))
     pr = pkg.method("Network", "reactions")
-    src = " ".join(ast.unparse(pr.body[-1]).split())
-    ctx.check(src.startswith("return self.reaction_list or "), "R3", "Network.reactions", (NETWORK, pr.lineno),
-              "network.reactions is reaction_list itself whenever it is non-empty (same order as reindex)", found=src[:80])
+    # by value: on every path on which reaction_list is non-empty the getter returns reaction_list itself (`A or [dummy]`,
+    # `A if A else [dummy]`, an early return either way round, a local defaulted when empty)
+    from ..valueflow import norm_guard
+    A = ("attr", ("param", "self"), "reaction_list")
+    pfl = Flow(pr, NETWORK)
+
+    def cases(v, conds):
+        v = simp(v)
+        if v[0] == "bool" and v[1] == "Or" and len(v[2]) == 2:
+            return cases(v[2][0], conds + [(v[2][0], True)]) + cases(v[2][1], conds + [(v[2][0], False)])
+        if v[0] in ("ifexp", "phi") and len(v) == 4:
+            return cases(v[2], conds + [(v[1], True)]) + cases(v[3], conds + [(v[1], False)])
+        return [(v, [norm_guard((simp(c), p_)) for c, p_ in conds])]
+    allc = [x for f in pfl.facts if f.kind == "return" for x in cases(f.value, list(f.guards))]
+    okr = bool(allc) and any(v == A for v, _ in allc) and all(v == A or (A, False) in g for v, g in allc)
+    ctx.check(okr, "R3", "Network.reactions", (NETWORK, pr.lineno),
+              "network.reactions is reaction_list itself whenever it is non-empty (same order as reindex)", found="; ".join(show(v)[:60] for v, _ in allc)[:160])
 
 
 def _r4(ctx, m):
